@@ -535,6 +535,70 @@ def rule_r10(facts, col, rule_id="C02.R10"):
     return n
 
 
+CIRC_TOTAL = "circular_buffer::Circ::total_size"
+BUF_TOTAL = "circular_buffer::Buffer::total_size"
+
+
+def rule_r11(facts, col, rule_id="C02.R11"):
+    """positions are counted in samples: `Circ::total_size()` - the length of the mapping in BYTES - is called only by
+    `Buffer::total_size()`, which divides it by the element size; every comparison / reduction of a ring position uses
+    `BufferState::capacity()`.  A byte count used as the ring size is right for 1-byte samples only (all tag-carrying unit tests
+    use u8): for wider samples a wrapping read window is taken for a non-wrapping one and the tags behind the wrap are dropped."""
+    n = 0
+    for body, bb, t in facts.callers_of(CIRC_TOTAL):
+        if body.file not in ("src/circular_buffer.rs", "src/stream.rs") or body.kind == "closure" and False:
+            continue
+        n += 1
+        key = "%s:total_size" % body.q
+        if body.q == BUF_TOTAL:
+            div = False
+            for rb, si, e in assigns_to_return(body):
+                p = peel(e, through_try=False)
+                if p.k == "bin" and p.op == "Div" and any(x.k == "call" and x.bb == bb for x in walk(p.a)):
+                    div = True
+            if div:
+                col.ok(rule_id, key, body.where(bb), "byte length divided by the element size")
+            else:
+                col.bad(rule_id, key, body.where(bb), "Buffer::total_size() no longer divides the mapping's byte length by the element size", {})
+        elif body.name in ("new",) or c01.from_debug_assert(t.get("sp")):
+            col.ok(rule_id, key, body.where(bb), "construction / debug assertion")
+        else:
+            col.bad(rule_id, key, body.where(bb),
+                    "%s uses Circ::total_size(), a length in BYTES, where ring positions are counted in samples: the value is the ring "
+                    "size for 1-byte elements only - for wider elements wrap detection and modular reductions are off by the element "
+                    "size (tags behind the wrap point are skipped and then deleted undelivered)" % body.q, {})
+    return n
+
+
+def rule_r12(facts, col, rule_id="C02.R12"):
+    """a ring position is reduced modulo capacity() from an exact value: no `wrapping_sub / wrapping_add / wrapping_mul` result
+    (which is already reduced modulo 2^64) flows into `% capacity()`.  The two reductions compose only when capacity() is a
+    power of two - true for the 4096-sample buffers of the unit tests, false for the 4_096_000-byte default stream - so tags in
+    the wrapped part of a read window get positions that are off by 2^64 mod capacity."""
+    n = 0
+    for body in facts.bodies:
+        if body.file != "src/circular_buffer.rs":
+            continue
+        for bb in sorted(body.reachable(0)):
+            for st in body.blocks[bb]["stmts"]:
+                if st["k"] != "assign" or st["rv"]["k"] != "bin" or st["rv"]["op"] != "Rem":
+                    continue
+                b = peel(body.operand_expr(st["rv"]["b"]), through_try=False)
+                if not any(x.k == "call" and (x.q or "").endswith(("BufferState::capacity", "Buffer::total_size")) for x in walk(b)):
+                    continue
+                a = body.operand_expr(st["rv"]["a"])
+                n += 1
+                key = "%s:%%capacity#%d" % (body.q, n)
+                wr = [x for x in walk(a) if x.k == "call" and (x.q or "").split("::")[-1] in ("wrapping_sub", "wrapping_add", "wrapping_mul", "wrapping_neg")]
+                if wr:
+                    col.bad(rule_id, key, "%s:%d" % (st["sp"]["f"], st["sp"]["l"]),
+                            "`%s(..) %% capacity()`: the wrapping operation has already reduced its result modulo 2^64, which agrees with "
+                            "modulo capacity() only for power-of-two capacities - not for the default stream size" % wr[0].q.split("::")[-1], {})
+                else:
+                    col.ok(rule_id, key, "%s:%d" % (st["sp"]["f"], st["sp"]["l"]), "reduced from an exact (checked) value")
+    return n
+
+
 _STREAM_API = {"read_range", "write_range", "capacity", "free", "new", "slice", "slice_mut", "full_buffer", "len", "is_empty", "total_size",
                "consume", "produce", "read_buf", "write_buf", "wait_for_read", "wait_for_write", "iter", "fill_from_slice", "fill_from_iter"}
 
@@ -606,6 +670,10 @@ def run(ctx):
     ctx.floor("C02.R9", 1, "tag-storing loop of the commit body")
     rule_r10(facts0, ctx)
     ctx.floor("C02.R10", 1, "Buffer::read_buf")
+    rule_r11(facts0, ctx)
+    ctx.floor("C02.R11", 1, "callers of Circ::total_size (Buffer::total_size today)")
+    rule_r12(facts, ctx)
+    ctx.floor("C02.R12", 3, "`% capacity()` reductions in the ring (4 today)")
     rule_r8(facts, ctx)
     ctx.floor("C02.R8", 1, "Buffer::read_buf")
     rule_r7(facts, ctx)
